@@ -34,7 +34,10 @@ Definition check_entries_to_append (ents toAppend : list entry) : option ptag :=
 (* ------------------------------------------------------------------ *)
 (* the persistent entry store (mirrors the harness' memStore)          *)
 
-Record store := mkSt { st_ents : list entry; st_max : N }.
+(* st_skip: a permissive store (any raftio.ILogDB may sit under the LogReader): its
+   IterateEntries starts at the first index it holds at or above low instead of
+   returning nothing when low itself is missing *)
+Record store := mkSt { st_ents : list entry; st_max : N; st_skip : bool }.
 
 Definition st_get (st : store) (i : N) : option entry :=
   find (fun e => e_index e =? i) (st_ents st).
@@ -43,12 +46,12 @@ Definition st_get (st : store) (i : N) : option entry :=
 Definition st_save (st : store) (ents : list entry) : store :=
   match ents with
   | [] => st
-  | _ => mkSt (rev ents ++ st_ents st) (e_index (last_entry ents))
+  | _ => mkSt (rev ents ++ st_ents st) (e_index (last_entry ents)) (st_skip st)
   end.
 
 (* RemoveEntriesTo *)
 Definition st_remove_to (st : store) (k : N) : store :=
-  mkSt (filter (fun e => k <? e_index e) (st_ents st)) (st_max st).
+  mkSt (filter (fun e => k <? e_index e) (st_ents st)) (st_max st) (st_skip st).
 
 (* IterateEntries(low, high, maxSize): contiguous entries from low, stops after
    the entry that makes size exceed maxSize *)
@@ -64,9 +67,15 @@ Fixpoint st_iter (fuel : nat) (st : store) (i size maxSize : N) : list entry * N
       else let '(r, sz) := st_iter f st (i + 1) size' maxSize in (e :: r, sz)
     end
   end.
+Fixpoint st_first_present (fuel : nat) (st : store) (i : N) : N :=
+  match fuel with
+  | O => i
+  | S f => match st_get st i with Some _ => i | None => st_first_present f st (i + 1) end
+  end.
 Definition st_iterate (st : store) (low high maxSize : N) : list entry * N :=
   let high := N.min high (st_max st + 1) in
-  st_iter (N.to_nat (high - low)) st low 0 maxSize.
+  let start := if st_skip st then st_first_present (N.to_nat (high - low)) st low else low in
+  st_iter (N.to_nat (high - start)) st start 0 maxSize.
 
 (* ------------------------------------------------------------------ *)
 (* logreader.go                                                        *)
@@ -580,14 +589,15 @@ Fixpoint run (w : world) (ops : list op) : res world :=
 
 (* (re)start: the harness builds the store, replays it into the LogReader the
    way node.replayLog does, creates the entryLog and loads the committed index *)
-Definition w_init_rl (rlon : bool) (mi mt : N) (ents : list entry) (committed limit : N) : world :=
-  let st := st_save (mkSt [] 0) ents in
+Definition w_init_opt (skip rlon : bool) (mi mt : N) (ents : list entry) (committed limit : N) : world :=
+  let st := st_save (mkSt [] 0 skip) ents in
   let lr0 := if 0 <? mi then mkLR mi mt 1 mi else lr_new in
   let lr := match lr_set_range lr0 (mi + 1) (nlen ents) with Ok l => l | _ => lr0 end in
   let el0 := el_new lr (if rlon then Some 0 else None) in
   let el := mkEL (el_im el0) (N.max (el_committed el0) committed) (el_processed el0) in
   mkW el lr st (el_committed el) [] limit.
 
+Definition w_init_rl := w_init_opt false.
 Definition w_init := w_init_rl false.
 
 (* the last update handed out (for the observation line) *)
